@@ -251,6 +251,20 @@ class FortranAST:
 
         return current
 
+    @staticmethod
+    def _contains_scope(obj, target) -> bool:
+        """Check if ``target`` is ``obj`` or can be reached from it through children"""
+        pending, seen = [obj], set()
+        while pending:
+            current = pending.pop()
+            if current is target:
+                return True
+            if id(current) in seen:
+                continue
+            seen.add(id(current))
+            pending.extend(getattr(current, "children", []))
+        return False
+
     def resolve_includes(self, workspace, path: str | None = None):
         file_dir = os.path.dirname(self.path)
         for inc in self.include_statements:
@@ -277,6 +291,12 @@ class FortranAST:
                     # Iterate over a copy, with cyclic includes the list of included
                     # entities can be the very list that is being extended
                     for child in list(include_ast.inc_scope.children):
+                        # Never make a scope its own descendant (files including
+                        # each other from inside program units)
+                        if (parent_scope is not None) and self._contains_scope(
+                            child, parent_scope
+                        ):
+                            continue
                         added_entities.append(child)
                         if parent_scope is not None:
                             parent_scope.add_child(child)
